@@ -23,6 +23,7 @@
 -/
 import Placement.Lemmas.CoreStatus
 import Placement.Lemmas.CoreViews
+import Placement.Lemmas.CoreHist
 
 namespace Placement.Props.C11
 open Placement Placement.Wf Placement.Core
@@ -441,5 +442,104 @@ example : totalUsage exDb (fun c => c.project == 7) 0 = 2 := by decide
 example : ((exDb.consumers.map (·.uuid)).flatMap (allocsOfConsumer exDb)).Perm
     ((exDb.rps.map (·.id)).flatMap (allocsOfProvider exDb)) :=
   consumer_view_eq_provider_view uniq_exDb ri_exDb
+
+/-! ## 3. the state the API reports is the result of the successful requests
+
+`run cfg db ops` is the history: every request is applied in order, each answered by `step`.
+`successes cfg db ops` are the requests of the history that were answered with 2xx, in order.
+
+What can be said exactly: replaying only the successful requests from the same initial state
+ * gives the same responses (each successful request is answered as in the full history), and
+ * ends in a state that agrees with the final state of the full history on `apiState` - every column of
+   `core`, the consumer rows WITHOUT their internal id.
+Equality of `core` itself (with `ConsRow.id`) is false, and so is equality of the name registries: a
+rejected allocation write leaves project / user / consumer-type names and consumes fresh consumer
+ids (C04), so consumers created later get other internal ids in the two runs (example below).  The
+internal id is never reported by the API, and it does not influence any later response:
+`SimDB` ("equal up to names, fresh id and an injective renaming of internal consumer ids") is
+preserved by every request on both sides with equal responses (`indistinguishable_step`), which is
+the precise sense in which the two final states are the same state of the API. -/
+
+/-- **C11, history**: dropping the requests that were answered with an error changes neither the
+responses of the remaining requests nor the state the API reports at the end. -/
+theorem history_eq_successes (cfg : Config) (db : DB R) (hU : Uniq db) (ops : List (Op R)) :
+    apiState (run cfg db (successes cfg db ops)).1 = apiState (run cfg db ops).1 ∧
+    (run cfg db (successes cfg db ops)).2 = (run cfg db ops).2.filter (·.ok) :=
+  have h := run_successes cfg ops (SimDB.refl (Gens.ids_of_uniq hU))
+  ⟨h.2.apiState, h.1⟩
+
+/-- the same from the synchronised empty database (no hypothesis on the requests) -/
+theorem history_eq_successes_init (cfg : Config) {stdRcs stdTraits : List Nat} (h1 : stdRcs.Nodup)
+    (h2 : stdTraits.Nodup) (ops : List (Op R)) :
+    apiState (run cfg (initDb stdRcs stdTraits : DB R) (successes cfg (initDb stdRcs stdTraits) ops)).1 =
+      apiState (run cfg (initDb stdRcs stdTraits : DB R) ops).1 ∧
+    (run cfg (initDb stdRcs stdTraits : DB R) (successes cfg (initDb stdRcs stdTraits) ops)).2 =
+      (run cfg (initDb stdRcs stdTraits : DB R) ops).2.filter (·.ok) :=
+  history_eq_successes cfg _ (Wf.uniq_init h1 h2) ops
+
+/-- every request of the replayed history is answered with success -/
+theorem successes_all_ok (cfg : Config) (db : DB R) (hU : Uniq db) (ops : List (Op R)) :
+    ∀ r ∈ (run cfg db (successes cfg db ops)).2, r.ok = true := by
+  rw [(history_eq_successes cfg db hU ops).2]
+  intro r hr
+  exact (List.mem_filter.mp hr).2
+
+/-- the two final states are indistinguishable ... -/
+theorem history_states_indistinguishable (cfg : Config) (db : DB R) (hU : Uniq db) (ops : List (Op R)) :
+    SimDB (run cfg db ops).1 (run cfg db (successes cfg db ops)).1 :=
+  (run_successes cfg ops (SimDB.refl (Gens.ids_of_uniq hU))).2
+
+/-- ... and indistinguishable states stay so under every request, with the same response
+(bisimulation): internal consumer ids, name registries and the fresh consumer id influence no
+response, now or later -/
+theorem indistinguishable_step (cfg : Config) {a b : DB R} (h : SimDB a b) (op : Op R) :
+    (step cfg a op).2 = (step cfg b op).2 ∧ SimDB (step cfg a op).1 (step cfg b op).1 :=
+  step_sim cfg h op
+
+/-- every continuation of the history is answered alike after the full history and after the
+replay of its successes -/
+theorem history_future_agrees (cfg : Config) (db : DB R) (hU : Uniq db) (ops more : List (Op R)) :
+    (run cfg (run cfg db ops).1 more).2 = (run cfg (run cfg db (successes cfg db ops)).1 more).2 := by
+  have h := history_states_indistinguishable cfg db hU ops
+  generalize (run cfg db ops).1 = a at h
+  generalize (run cfg db (successes cfg db ops)).1 = b at h
+  induction more generalizing a b with
+  | nil => rfl
+  | cons op more ih =>
+    rw [run_cons_snd, run_cons_snd, (step_sim cfg h op).1, ih _ _ (step_sim cfg h op).2]
+
+omit [CapOps R] in
+/-- indistinguishable states have the same `apiState` -/
+theorem indistinguishable_apiState {a b : DB R} (h : SimDB a b) : apiState b = apiState a := h.apiState
+
+/-- a single rejected request is invisible: the state after it is indistinguishable from the state
+before it (C04 gives more: `core` is unchanged) -/
+theorem rejected_request_invisible (cfg : Config) (db : DB R) (hU : Uniq db) (op : Op R)
+    (h : 400 ≤ (step cfg db op).2.status) : SimDB (step cfg db op).1 db :=
+  (SimDB.refl (Gens.ids_of_uniq hU)).rejected cfg op h
+
+/-! ### example: a history with rejected allocation writes that create consumers -/
+
+/-- 1. POST /allocations for the new consumers 501 (1 unit) and 503 (7 units of the 6 left): 409, both
+       consumer records are created and removed again, two fresh ids are used up;
+    2. PUT /allocations/501: 204, creates consumer 501;
+    3. PUT inventories dropping a class in use: 409;
+    4. POST /resource_providers: 200. -/
+def exHistory : List (Op Nat) :=
+  [.allocPost 38 [exReq 501 none [(101, 0, 1)], exReq 503 none [(101, 0, 7)]],
+   .allocPut 38 (exReq 501 none [(101, 0, 1)]),
+   .invSet 39 101 3 [],
+   .rpCreate 39 150 250 none]
+
+example : (run exCfg exDb exHistory).2.map (·.status) = [409, 204, 409, 200] := by decide
+example : successes exCfg exDb exHistory =
+    [.allocPut 38 (exReq 501 none [(101, 0, 1)]), .rpCreate 39 150 250 none] := by
+  rfl
+example : apiState (run exCfg exDb (successes exCfg exDb exHistory)).1 = apiState (run exCfg exDb exHistory).1 :=
+  (history_eq_successes exCfg exDb uniq_exDb exHistory).1
+-- why `core` (with internal ids) cannot be used: consumer 501 has id 4 after the full history, id 2 after the replay
+example : (run exCfg exDb exHistory).1.consumers.map (fun c => (c.uuid, c.id)) = [(500, 1), (501, 4)] := by decide
+example : (run exCfg exDb [.allocPut 38 (exReq 501 none [(101, 0, 1)]), .rpCreate 39 150 250 none]).1.consumers.map
+    (fun c => (c.uuid, c.id)) = [(500, 1), (501, 2)] := by decide
 
 end Placement.Props.C11
